@@ -156,6 +156,11 @@ def multipole_integral(kindA, kindB, r, DA, QA, DB, QB, rhoA, rhoB, ev, rsqrt):
     DA, QA: dipole / quadrupole arms of A (QA is the *quadrupole arm*, i.e. charges at +-2*QA for the linear
     quadrupole and at +-QA corners for the square one).  rhoA/rhoB = (rho0, rho1, rho2).
     rsqrt(x) must return x**(-1/2)."""
+    if (kindA, kindB) == ("pq", "pq"):
+        # Dewar-Thiel fix this integral by rotational invariance about the bond axis, not by a charge
+        # configuration: (p p'|p p') = 1/2 [ (pp|pp) - (pp|p'p') ]
+        a = (r, DA, QA, DB, QB, rhoA, rhoB, ev, rsqrt)
+        return Fraction(1, 2) * (multipole_integral("pp", "pp", *a) - multipole_integral("pp", "qq", *a))
     total = 0
     for (oa, cha) in _parts(kindA, DA, QA):
         for (ob, chb) in _parts(kindB, DB, QB):
